@@ -349,7 +349,7 @@ theorem startApp_quiet (cid : Nat) (blocked : List Nat) (a : App) (s : State) :
     generalize bindAll cid a blocked a.listen s = r at h
     obtain ⟨s', b⟩ := r
     cases b with
-    | true => exact h
+    | true => dsimp only; split; exact h.trans (closeApp_quiet _ _ _); exact h
     | false => exact h.trans (closeApp_quiet _ _ _)
   · split
     · exact quiet_evA _ _
